@@ -177,6 +177,11 @@ func (f *Fosite) DefaultClientAuthenticationStrategy(ctx context.Context, r *htt
 		if err != nil {
 			return nil, errorsx.WithStack(err)
 		}
+		// "exp" is required (RFC 7523, section 3). The generic validation above reads a zero value as
+		// "no expiry" and lets it pass; such an assertion would never expire and its jti would be forgotten at once.
+		if !claims.VerifyExpiresAt(time.Now().UTC().Unix(), true) {
+			return nil, errorsx.WithStack(ErrInvalidClient.WithHint("Claim 'exp' from 'client_assertion' must be set to a time in the future."))
+		}
 		// The expiry is compared in whole seconds, so the assertion is still accepted during the second
 		// that starts at "exp"; the jti has to be remembered until that second has passed.
 		if err := f.Store.SetClientAssertionJWT(ctx, jti, time.Unix(expiry, 0).Add(time.Second)); err != nil {
